@@ -82,6 +82,8 @@ def run(model: Model, rep: Report) -> None:
     _xrefstream(model, rep)
     # ---------------------------------------------------------------- R4
     _fallback(model, rep)
+    # ---------------------------------------------------------------- R7
+    _revreadlines(model, rep)
     # ---------------------------------------------------------------- R6
     r6 = rep.rule("C02-R6", "BIND", "object-stream member lookup: objs[N*2 + index] with index from the xref entry; xref-stream entry fields", 4)
     om = model.func(DOC + "._getobj_objstm")
@@ -199,3 +201,35 @@ def _fallback(model: Model, rep: Report) -> None:
     ln = [n for n in walk_no_nested(dk.node) if isinstance(n, ast.Assign) and unparse(n.targets[0]) == "objlen" and "int_value" in unparse(n.value)]
     okl = bool(ln) and any(((not pol) and unparse(t) == "self.fallback") or (pol and unparse(t) == "not self.fallback") for t, pol in _guard_tests(dk, ln[0]))
     r4.check(okl, site(dk), dk.qualname, "/Length is trusted unless in fallback mode", why="Length read moved")
+
+
+def _revreadlines(model: Model, rep: Report) -> None:
+    r7 = rep.rule("C02-R7", "PARTITION", "backward line reader: chunks tile the file, every chunk is split exactly at its line breaks, the not-found sentinel is compared exactly", 4)
+    f = model.func("pdfminer.psparser.PSBaseParser.revreadlines")
+    src = "".join(unparse(f.node).split())
+    # contiguous chunks: prevpos = pos; pos = max(0, pos - BUFSIZ); seek(pos); read(prevpos - pos)
+    r7.check("prevpos=pospos=max(0,pos-self.BUFSIZ)self.fp.seek(pos)s=self.fp.read(prevpos-pos)" in src, site(f), f.qualname, "each chunk is [max(0, pos - BUFSIZ), pos): consecutive chunks tile the file backwards", why="chunk arithmetic changed")
+    # sentinel discipline: a find/rfind result may only be compared with -1 / tested < 0 / >= 0
+    found = {}
+    for n in walk_no_nested(f.node):
+        if isinstance(n, ast.Assign) and isinstance(n.targets[0], ast.Name) and any(isinstance(c, ast.Call) and isinstance(c.func, ast.Attribute) and c.func.attr in ("find", "rfind") for c in ast.walk(n.value)):
+            found[n.targets[0].id] = n
+    nchecked = 0
+    for n in walk_no_nested(f.node):
+        if isinstance(n, ast.Compare) and any(isinstance(x, ast.Name) and x.id in found for x in [n.left] + list(n.comparators)):
+            try:
+                (l, op, r), = canon_compare(n)
+            except ValueError:
+                continue
+            nchecked += 1
+            ok = (l, op, r) in [(v, "==", "-1") for v in found] + [("-1", "==", v) for v in found] + [(v, "!=", "-1") for v in found] + [("-1", "!=", v) for v in found] + [(v, "<", "0") for v in found] + [("0", "<=", v) for v in found] + [("-1", "<", v) for v in found] + [(v, "<=", "-1") for v in found]
+            r7.check(ok, site(f, n), f.qualname, f"`{unparse(n)}`: position from find/rfind is only compared with the not-found value -1", why="position 0 (a line break at the very start of a chunk) is treated as 'not found': the line is glued to its neighbour and startxref is missed for some buffer sizes")
+    if nchecked == 0:
+        r7.violation(site(f), f.qualname, "not-found test of the line-break search", "no comparison of the rfind result found")
+    # exact split: yield s[n:] + buf ; s = s[:n] ; buf = b'' / buf = s + buf
+    nv = next(iter(found), "n")
+    ok = (f"yields[{nv}:]+buf" in src or f"yield(s[{nv}:]+buf)" in src) and f"s=s[:{nv}]" in src and "buf=b''" in src and "buf=s+buf" in src
+    r7.check(ok, site(f), f.qualname, "a chunk is cut at the last line break: the tail (plus what was carried) is yielded, the head is kept, nothing is lost or repeated", why="split changed")
+    fx = model.func(DOC + ".find_xref")
+    s2 = "".join(unparse(fx.node).split())
+    r7.check("forlineinparser.revreadlines():line=line.strip()" in s2 and "ifline==b'startxref':" in s2 and "ifline:prev=line" in s2 and "start=int(prev)" in s2, site(fx), fx.qualname, "the offset is the last non-empty line read before `startxref` when reading backwards", why="find_xref changed")
